@@ -67,8 +67,9 @@ type SenderInterceptor struct {
 	interval  time.Duration
 	startTime time.Time
 
-	recorder   *Recorder
-	packetChan chan packet
+	recorder     *Recorder
+	recorderLock sync.Mutex // every BindRTCPWriter replaces the recorder and starts a loop, all loops use the current one
+	packetChan   chan packet
 }
 
 // An Option is a function that can be used to configure a SenderInterceptor.
@@ -99,7 +100,9 @@ func (s *SenderInterceptor) BindRTCPWriter(writer interceptor.RTCPWriter) interc
 	s.m.Lock()
 	defer s.m.Unlock()
 
+	s.recorderLock.Lock()
 	s.recorder = NewRecorder(rand.Uint32()) // #nosec
+	s.recorderLock.Unlock()
 
 	if s.isClosed() {
 		return writer
@@ -207,7 +210,9 @@ func (s *SenderInterceptor) loop(writer interceptor.RTCPWriter) {
 	case <-s.close:
 		return
 	case p := <-s.packetChan:
+		s.recorderLock.Lock()
 		s.recorder.Record(p.ssrc, p.sequenceNumber, p.arrivalTime)
+		s.recorderLock.Unlock()
 	}
 
 	ticker := time.NewTicker(s.interval)
@@ -218,11 +223,15 @@ func (s *SenderInterceptor) loop(writer interceptor.RTCPWriter) {
 
 			return
 		case p := <-s.packetChan:
+			s.recorderLock.Lock()
 			s.recorder.Record(p.ssrc, p.sequenceNumber, p.arrivalTime)
+			s.recorderLock.Unlock()
 
 		case <-ticker.C:
 			// build and send twcc
+			s.recorderLock.Lock()
 			pkts := s.recorder.BuildFeedbackPacket()
+			s.recorderLock.Unlock()
 			if len(pkts) == 0 {
 				continue
 			}
